@@ -116,19 +116,8 @@ int vx_thrown;
 static inline size_t vx_idx(size_t i, size_t n) { __CPROVER_assert(i < n, "VX_BOUND subscript within logical capacity N"); return i; }
 ''' % CAP
 
-# R8 is justified by the one-line bodies of iterator_base: each is one pointer operation
-FACTS = [
-    r'constexpr it_type operator - \(size_type amount\) const \{ return it_type\{ cast\(\)->ptr - amount \}; \}',
-    r'constexpr size_type operator - \(const it_type& other\) const \{ return size_type\(cast\(\)->ptr - other\.ptr\); \}',
-    r'constexpr it_type operator \+ \(size_type amount\) const \{ return it_type\{ cast\(\)->ptr \+ amount \}; \}',
-    r'constexpr it_type& operator \+\+\(\) \{ \+\+\(cast\(\)->ptr\); return \*cast\(\); \}',
-    r'constexpr bool operator == \(const it_type& other\) const \{ return cast\(\)->ptr == other\.ptr; \}',
-    r'constexpr bool operator > \(const it_type& other\) const \{ return cast\(\)->ptr > other\.ptr; \}',
-    r'constexpr bool operator < \(const it_type& other\) const \{ return cast\(\)->ptr < other\.ptr; \}',
-    r'constexpr iterator begin\(\) \{ return iterator\(the_data\); \}',
-    r'constexpr iterator end\(\) \{ return iterator\(the_data \+ current_size\); \}',
-    r'constexpr T& operator \*\(\) const \{ return \*ptr; \}',
-]
+# R8 (iterators are element offsets) rests on the one-line bodies of iterator_base / iterator / begin / end: under contract in unit cvec_iter
+FACTS = []
 
 UNIT = Unit('stdex', PRELUDE + cvector_struct('cvecv', 'uint32_t') + cvector_struct('cvec16', 'size16_t'), make_cvector('cvecv', 'uint32_t') + make_cvector('cvec16', 'size16_t'),
             consts=[('VX_FACT_%d' % i, '(' + rx + ')', None) for i, rx in enumerate(FACTS) if False])
@@ -157,7 +146,7 @@ def cb_frame(p, q, except_idx=None):
             % (q, q, p, q, q, except_idx, except_idx, p, q, q, except_idx, except_idx))
 
 
-def make_cbitset(pfx='cbitset'):
+def make_cbitset(pfx='cbitset', extra=False):
     V = 'struct %s' % pfx
     R = CB_CONSTS + [CB_MEMBERS, S(r'\bcheck_idx\(', '%s_check_idx(self, ' % pfx, min=0, name='R4:check_idx'), S(r'return \*this;', 'return self;', min=0, name='R4:this')]
     fns = []
@@ -199,6 +188,30 @@ def make_cbitset(pfx='cbitset'):
         rules=[S(r'other\.data', 'other->data')] + R,
         loops={0: '__CPROVER_assigns(i)\n__CPROVER_loop_invariant(i <= CB_UCOUNT(self) && __CPROVER_forall { size_t vq_cbq; (vq_cbq < CB_WORDS) ==> (vq_cbq < i ==> self->data[vq_cbq] == other->data[vq_cbq]) })\n__CPROVER_decreases(CB_UCOUNT(self) - i)'},
         harness_args=', &y', harness_pre='%s y;' % V)
+    if not extra:
+        return fns
+    # ---- the remaining members (used by regex::char_subset: set(), flip(); the others for completeness)
+    one('flip1', r'constexpr\s+cbitset&\s+flip\(size_type idx\)', '%s* %s_flip1(%s* self, size_t idx)' % (V, pfx, V),
+        '__CPROVER_requires(%s && vx_thrown == 0)\n__CPROVER_assigns(vx_thrown, *self)\n'
+        '__CPROVER_ensures(vx_thrown == 0 && idx < self->N && self->N == __CPROVER_old(self->N) && %s == (1 ^ %s) && __CPROVER_return_value == self)\n__CPROVER_ensures(idx < CB_WORDS * 64 && %s)'
+        % (cb_wf('self'), CB_BIT('self', 'idx'), CB_BIT('__CPROVER_old(*self)', 'idx').replace('->', '.'), cb_frame('self', 'vq_cbf', 'idx')),
+        harness_args=', i', harness_pre='size_t i;', replace=['%s_check_idx' % pfx])
+    one('set2', r'constexpr\s+cbitset&\s+set\(size_type idx, bool value\)', '%s* %s_set2(%s* self, size_t idx, bool value)' % (V, pfx, V),
+        '__CPROVER_requires(%s && vx_thrown == 0)\n__CPROVER_assigns(vx_thrown, *self)\n'
+        '__CPROVER_ensures(vx_thrown == 0 && idx < self->N && self->N == __CPROVER_old(self->N) && %s == (value ? 1 : 0) && __CPROVER_return_value == self)\n__CPROVER_ensures(idx < CB_WORDS * 64 && %s)'
+        % (cb_wf('self'), CB_BIT('self', 'idx'), cb_frame('self', 'vq_cb2', 'idx')),
+        harness_args=', i, b', harness_pre='size_t i; bool b;', replace=['%s_check_idx' % pfx])
+    WORDS = RangeFor([(r'self->data', 'CB_UCOUNT(self)', 'self->data[{i}]', 'uint64_t', True)])
+    for meth, val, doc in (('flip', '~__CPROVER_old(*self).data[vq_cbw]', 'every bit of the N is complemented'), ('set', '~(uint64_t)0', 'every bit set'), ('reset', '(uint64_t)0', 'every bit cleared')):
+        lval = val.replace('__CPROVER_old(*self)', '__CPROVER_loop_entry(*self)')
+        one(meth + '_all', r'constexpr\s+cbitset&\s+%s\(\)' % meth, '%s* %s_%s_all(%s* self)' % (V, pfx, meth, V),
+            '__CPROVER_requires(%s)\n__CPROVER_assigns(*self)\n/* %s (whole words: the words in use) */\n'
+            '__CPROVER_ensures(self->N == __CPROVER_old(self->N) && __CPROVER_return_value == self && __CPROVER_forall { size_t vq_cbw; (vq_cbw < CB_WORDS) ==> ((vq_cbw < CB_UCOUNT(self) ==> self->data[vq_cbw] == %s) && (vq_cbw >= CB_UCOUNT(self) ==> self->data[vq_cbw] == __CPROVER_old(*self).data[vq_cbw])) })'
+            % (cb_wf('self'), doc, val),
+            rules=CB_CONSTS + [CB_MEMBERS, WORDS, S(r'return \*this;', 'return self;', min=0, name='R4:this')],
+            loops={0: '__CPROVER_assigns(VX_IDX, *self)\n__CPROVER_loop_invariant(VX_IDX <= CB_UCOUNT(self) && self->N == __CPROVER_loop_entry(self->N) && __CPROVER_forall { size_t vq_cbw; (vq_cbw < CB_WORDS) ==> ((vq_cbw < VX_IDX ==> self->data[vq_cbw] == %s) && (vq_cbw >= VX_IDX ==> self->data[vq_cbw] == __CPROVER_loop_entry(*self).data[vq_cbw])) })\n__CPROVER_decreases(CB_UCOUNT(self) - VX_IDX)' % lval})
+    one('size', r'constexpr\s+size_type\s+size\(\)', 'size_t %s_size(const %s* self)' % (pfx, V),
+        '__CPROVER_requires(%s)\n__CPROVER_assigns()\n__CPROVER_ensures(__CPROVER_return_value == self->N)' % cb_wf('self').replace('w_ok', 'r_ok'))
     return fns
 
 
@@ -213,7 +226,7 @@ CB_FACTS = [r'static const size_type underlying_size = sizeof\(underlying_type\)
             r'underlying_type data\[underlying_count\] = \{\};', r'using underlying_type = std::uint64_t;']
 
 UNIT = Unit('stdex', PRELUDE + cvector_struct('cvecv', 'uint32_t') + cvector_struct('cvec16', 'size16_t') + cbitset_struct(),
-            make_cvector('cvecv', 'uint32_t') + make_cvector('cvec16', 'size16_t') + make_cbitset())
+            make_cvector('cvecv', 'uint32_t') + make_cvector('cvec16', 'size16_t') + make_cbitset(extra=True))
 UNIT.facts = FACTS + CB_FACTS
 
 
@@ -242,3 +255,36 @@ int main() {
 for _f in UNIT.fns:
     if _f.name in ('cbitset_set', 'cbitset_reset'):
         _f.twin = _twin_cbitset(_f.name.split('_')[1])
+
+
+def _twin_cvector(method, T):
+    def tw(o):
+        pfx = 'cvec16' if T == 'uint16_t' else 'cvecv'
+        v = _N.trace_vals(o, 'h_%s_%s' % (pfx, method))
+        size = min(_N.to_int(v.get('x.current_size'), 0), 16); n = min(max(_N.to_int(v.get('x.N'), 16), 1), 16)
+        data = [_N.to_int(v.get('x.the_data[%dl]' % k), 0) for k in range(16)]
+        a = _N.to_int(v.get('a'), 0); b = _N.to_int(v.get('b'), 0); val = _N.to_int(v.get('v'), 7)
+        body = {'push_back': 'c.push_back((T)%d); ok = c.size() == n0 + 1 && c[n0] == (T)%d;' % (val, val),
+                'emplace_back': 'c.emplace_back((T)%d); ok = c.size() == n0 + 1 && c[n0] == (T)%d;' % (val, val),
+                'pop_back': 'c.pop_back(); ok = c.size() == n0 - 1;',
+                'erase': 'c.erase(c.end() - (n0 - %d), c.end()); ok = c.size() == (size_t)%d;' % (a, a)}[method]
+        return _N.TWIN_HEAD + """
+typedef %s T;
+int main() {
+    stdex::cvector<T, 16> c; T init[16] = { %s }; size_t n0 = %d;
+    for (size_t k = 0; k < n0; ++k) c.push_back(init[k]);
+    bool ok = true;
+    %s
+    for (size_t k = 0; k < c.size() && k < n0; ++k) if (c[k] != init[k]) { ok = false; std::printf("element %%zu changed\\n", k); }
+    std::printf("size %%zu -> %%zu\\n", n0, c.size());
+    return ok ? 0 : 1;
+}""" % (T, ', '.join(str(x) for x in data), size, body)
+    return tw
+
+
+for _f in UNIT.fns:
+    for _m in ('push_back', 'emplace_back', 'pop_back', 'erase'):
+        if _f.name == 'cvec16_' + _m:
+            _f.twin = _twin_cvector(_m, 'uint16_t')
+        if _f.name == 'cvecv_' + _m:
+            _f.twin = _twin_cvector(_m, 'uint32_t')
